@@ -11,8 +11,8 @@ import (
 	"reflect"
 	"strings"
 	"sync"
-	"unsafe"
 	"time"
+	"unsafe"
 
 	"github.com/cinar/indicator/v2/strategy"
 )
